@@ -482,7 +482,7 @@ def shipped(ctx, tools, src, rel, w):
     if rc2 != 0 or out2 is None:
         ctx.violation(f"shipped-unstable:{rel}", f"printing the output of {rel} again fails", {"schema_file": rel, "exppp_args": ["-l", str(w)], "kind": "unstable"})
         return
-    t1, t2 = X.lex(body_of(out)), X.lex(body_of(out2))
+    t1, t2 = resplit(X.lex(body_of(out))), resplit(X.lex(body_of(out2)))
     if t1 != t2:
         j = next((k for k in range(min(len(t1), len(t2))) if t1[k] != t2[k]), 0)
         ctx.violation(f"shipped-unstable:{rel}:" + "_".join(X.tok_text(x) for x in t1[max(0, j - 4):j + 4]),
